@@ -4,6 +4,7 @@ import (
 	"bytes"
 	"encoding/json"
 	"fmt"
+	"strings"
 
 	"verifharness/core"
 	"verifharness/gen"
@@ -101,7 +102,7 @@ func runC02(r *core.Run) {
 		t := gen.Junk(rr, &gen.JunkCfg{Separators: true, Long: i%7 == 0, Binary: true, MixedEOL: i%3 == 0}, 1+rr.Intn(12), eol)
 		switch rr.Intn(4) {
 		case 0:
-			t = t[:len(t)-len(eol)]
+			t = strings.TrimSuffix(strings.TrimSuffix(t, "\n"), "\r")
 		case 1:
 			// cut at an arbitrary byte: the last line ends anywhere, e.g. between CR and LF
 			t = t[:rr.Intn(len(t)+1)]
